@@ -1234,6 +1234,52 @@ theorem C03_sort_needs_total_order_witness :
 example : lastMax simpleCmp [v10, [49, 46, 48, 48], [48, 46, 57]] = some [49, 46, 48, 48] ∧
     sortLast simpleCmp [v10, [49, 46, 48, 48], [48, 46, 57]] = some [49, 46, 48, 48] := by decide
 
+/-! ## one `Eups` object serving several top-level requests: what a request may inherit from the one before it
+
+`histStep` (Model/Vro.lean): `alreadySetupProducts` survives from one top-level `setup` to the next on the same object, but
+the request resets it — after the product named has been looked up — to "what the environment shows, reason unknown". -/
+
+/-- A top-level `setup X` depends on the dictionary the previous requests left behind ONLY through its entry for `X`
+itself (the top-level lookup runs before the reset): the product chosen, every dependency of the table, the environment
+afterwards and — when the request succeeds — the dictionary it leaves are the same whatever else earlier requests on the
+object recorded, for which products and for which reasons.  In particular the dependencies are resolved with
+"(what is set up, reason unknown)", so no earlier, finished request's choice outranks what the VRO designates now. -/
+theorem C03_request_forgets_earlier_reasons (C : Ctx) (keep : Bool) (flavors vro : List Str) (env : EnvS)
+    (d d' : Dict) (c : HistCmd) (hx : assocGet c.name d = assocGet c.name d') :
+    (histStep C keep flavors vro ⟨env, d⟩ c).2 = (histStep C keep flavors vro ⟨env, d'⟩ c).2 ∧
+    (histStep C keep flavors vro ⟨env, d⟩ c).1.env = (histStep C keep flavors vro ⟨env, d'⟩ c).1.env ∧
+    ((histStep C keep flavors vro ⟨env, d⟩ c).2 ≠ .failed → c.unsetup = false →
+      (histStep C keep flavors vro ⟨env, d⟩ c).1 = (histStep C keep flavors vro ⟨env, d'⟩ c).1) := by
+  unfold histStep
+  cases hu : c.unsetup
+  · simp only [Bool.false_eq_true, if_false, hx]
+    cases resolve C { name := c.name, version := c.version, vexpr := none, depth := 0, flavor := [], ignoreVersions := false,
+                      already := assocGet c.name d' } keep vro flavors with
+    | error e => exact ⟨rfl, rfl, fun h => absurd rfl h⟩
+    | ok o =>
+      cases o with
+      | none => exact ⟨rfl, rfl, fun h => absurd rfl h⟩
+      | some h => exact ⟨rfl, rfl, fun _ _ => rfl⟩
+  · simp only [if_true]
+    cases assocGet c.name env with
+    | none => exact ⟨rfl, rfl, fun h => absurd rfl h⟩
+    | some p => exact ⟨rfl, rfl, fun _ h => by cases h⟩
+
+/-- non-vacuity, the history of the seeded change: `top1` requires `p 1.0`, `top2` requires `p` (no version); on the example
+database `current` is `p 2.0`.  After `setup top1` the object remembers (p 1.0, reason `version`); `setup top2` on the same
+object sets up `p 2.0` all the same. -/
+def exTops : Db :=
+  [{ decls := [⟨sP, v10, sLinux⟩, ⟨sP, v20, sLinux⟩, ⟨[116, 49], v10, sLinux⟩, ⟨[116, 50], v10, sLinux⟩],
+     tags := [⟨sCurrent, sP, sLinux, v20⟩, ⟨sCurrent, [116, 49], sLinux, v10⟩, ⟨sCurrent, [116, 50], sLinux, v10⟩] }]
+def exLineP (v : Option Str) : LineSpec :=
+  { name := sP, version := v, vexpr := none, lineVro := none, lineTags := [], lineKeep := false, optional := false }
+example :
+    let C := mkCtx simpleOrd [sCurrent, sStable, sBeta] exTops .files [sLinux, sGeneric] []
+    let r := runHistory C false [sLinux, sGeneric] defaultVro ⟨[], []⟩
+      [⟨[116, 49], none, [exLineP (some v10)], false⟩, ⟨[116, 50], none, [exLineP none], false⟩]
+    r.1 = [.ok ⟨v10, sLinux, 0⟩ false, .ok ⟨v10, sLinux, 0⟩ false] ∧ assocGet sP r.2.env = some ⟨v20, sLinux, 0⟩ := by
+  decide
+
 /-! ## the VRO in force for a table line is the command's VRO as modified by that line only -/
 
 /-- Whatever the lines of a table ask for (`-k`, `-t tag`, `--vro`), (1) the command's VRO is the
